@@ -121,6 +121,8 @@ pub fn cases() -> Vec<Pair> {
         ("cast", c("v").cast_as(a("text")), "CAST(\"v\" AS text)"), ("abs / neg", Func::abs(c("v").sub(35)).into(), "ABS(\"v\" - 35)"),
         ("tuple in", Expr::tuple([c("id").into(), c("v").into()]).in_tuples([(1, 10), (3, 31)]), "(\"id\", \"v\") IN ((1, 10), (3, 31))"),
         ("text", c("g").eq("it's"), "\"g\" = 'it''s'"),
+        ("text crlf", c("g").ne("first\r\nsecond\ttab"), "\"g\" <> 'first\r\nsecond\ttab'"),
+        ("text value", Expr::val("a\r\nb\tc'd\\e").into(), "'a\r\nb\tc''d\\e'"),
         ("text backslash", c("g").ne("a\\b'c"), "\"g\" <> 'a\\b''c'"),
         ("bytes", Expr::val(vec![0u8, 0x0a, 0x10, 0xff, 0x07]).into(), "x'000A10FF07'"),
         ("bytes compare", Expr::val(vec![0x0au8, 0x01]).lt(Expr::val(vec![0x0au8, 0x10])), "x'0A01' < x'0A10'"),
@@ -149,6 +151,11 @@ pub fn cases() -> Vec<Pair> {
         let s = Query::select().column(a("id")).from(a("t")).order_by_with_nulls(a("g"), Order::Field(Values(vec!["b".into(), "a".into()])), n).order_by(a("id"), Order::Desc).to_owned();
         both_p(&mut out, &format!("order by field nulls={k}"), &s, &format!("SELECT \"id\" FROM \"t\" ORDER BY CASE WHEN \"g\" = 'b' THEN 0 WHEN \"g\" = 'a' THEN 1 ELSE 2 END NULLS {}, \"id\" DESC", if k == 0 { "FIRST" } else { "LAST" }), true, true);
     }
+    // DISTINCT over a column WITH duplicates
+    let s = Query::select().distinct().column(a("g")).from(a("t")).order_by(a("g"), Order::Asc).to_owned();
+    both_p(&mut out, "distinct with duplicates", &s, "SELECT DISTINCT \"g\" FROM \"t\" ORDER BY \"g\" ASC", true, true);
+    let i = Query::insert().into_table(a("k")).columns([a("id"), a("n")]).select_from(Query::select().distinct().expr(c("v").div(20)).expr(Expr::val(1)).from(a("t")).to_owned()).unwrap().to_owned();
+    both_p(&mut out, "insert select distinct", &i, "INSERT INTO \"k\" (\"id\", \"n\") SELECT DISTINCT \"v\" / 20, 1 FROM \"t\"", true, true);
     // ---- joins, set operations, CTEs, sub-queries, windows
     for (k, (jt, kw)) in [(JoinType::InnerJoin, "INNER JOIN"), (JoinType::LeftJoin, "LEFT JOIN"), (JoinType::CrossJoin, "CROSS JOIN")].into_iter().enumerate() {
         let mut s = Query::select(); s.column((a("t"), a("id"))).column(a("x")).from(a("t")).order_by((a("t"), a("id")), Order::Asc).order_by(a("x"), Order::Asc);
@@ -192,6 +199,21 @@ pub fn cases() -> Vec<Pair> {
     let mut s = Query::select(); s.column(a("id")).from(a("t")).order_by(a("id"), Order::Asc).limit(2).offset(2);
     let s = s.take();
     both(&mut out, "state take keeps limit and offset", &s, "SELECT \"id\" FROM \"t\" ORDER BY \"id\" ASC LIMIT 2 OFFSET 2", true);
+    // appending twice: unions() after union() keeps the earlier operand; a frame with numeric PRECEDING and FOLLOWING bounds
+    let part = |k: i32| Query::select().column(a("id")).from(a("t")).and_where(c("id").eq(k)).to_owned();
+    let s = part(1).union(UnionType::All, part(2)).unions([(UnionType::All, part(3)), (UnionType::All, part(4))]).order_by(a("id"), Order::Asc).to_owned();
+    both_p(&mut out, "state union then unions", &s, "SELECT \"id\" FROM \"t\" WHERE \"id\" = 1 UNION ALL SELECT \"id\" FROM \"t\" WHERE \"id\" = 2 UNION ALL SELECT \"id\" FROM \"t\" WHERE \"id\" = 3 UNION ALL SELECT \"id\" FROM \"t\" WHERE \"id\" = 4 ORDER BY \"id\" ASC", true, true);
+    let s = Query::select().column(a("id")).expr_window_as(c("v").sum(), WindowStatement::new().order_by(a("id"), Order::Asc).frame_between(FrameType::Rows, Frame::Preceding(1), Frame::Following(2)).to_owned(), a("run")).from(a("t")).order_by(a("id"), Order::Asc).to_owned();
+    both_p(&mut out, "window frame preceding following", &s, "SELECT \"id\", SUM(\"v\") OVER (ORDER BY \"id\" ASC ROWS BETWEEN 1 PRECEDING AND 2 FOLLOWING) AS \"run\" FROM \"t\" ORDER BY \"id\" ASC", true, true);
+    let s = Query::select().column(a("id")).expr_window_as(c("v").sum(), WindowStatement::new().order_by(a("id"), Order::Asc).frame_between(FrameType::Rows, Frame::CurrentRow, Frame::UnboundedFollowing).to_owned(), a("run")).from(a("t")).order_by(a("id"), Order::Asc).to_owned();
+    both_p(&mut out, "window frame current unbounded", &s, "SELECT \"id\", SUM(\"v\") OVER (ORDER BY \"id\" ASC ROWS BETWEEN CURRENT ROW AND UNBOUNDED FOLLOWING) AS \"run\" FROM \"t\" ORDER BY \"id\" ASC", true, true);
+    // a row that is longer / shorter than the column list is refused by values(); if it were accepted the engine must still take the statement
+    for (k, n) in [(0usize, 3usize), (1, 1)] {
+        let mut i = Query::insert(); i.into_table(a("k")).columns([a("id"), a("n")]).values_panic([50.into(), 1.into()]);
+        let row: Vec<SimpleExpr> = (0..n).map(|x| Expr::val(60 + x as i32).into()).collect();
+        let _ = i.values(row);
+        both(&mut out, &format!("insert refused row {k}"), &i, "INSERT INTO \"k\" (\"id\", \"n\") VALUES (50, 1)", true);
+    }
     // ---- INSERT
     for shape in 0..4 { for conflict in 0..7 { for ret in 0..3 {
         if shape == 3 && conflict != 0 { continue; }
